@@ -148,14 +148,24 @@ end Upnp.C09
 namespace Upnp.C09
 open Upnp PyDict
 
-/-- everything the judge asks of one call's outcome (the routing observations aside) -/
+/-- well-formed call: caller-supplied timeouts are not negative -/
+def callWF : Call → Prop
+  | .subscribe _ t => 0 ≤ t
+  | .resubscribe _ t => 0 ≤ t
+  | _ => True
+
+instance (c : Call) : Decidable (callWF c) := by
+  cases c <;> simp only [callWF] <;> infer_instance
+
+/-- everything the judge asks of one call's outcome (the routing observations aside); only request validity and
+    the returned timeout (which is judged against the TIMEOUT on the wire) need the caller's timeout to be ≥ 0 -/
 structure CallOk (rt : Routing) (c : Call) (o : Out) : Prop where
   nodup : (keys o.rt).Nodup
-  valid : o.exch.all (fun e => validReq e.req) = true
+  valid : callWF c → o.exch.all (fun e => validReq e.req) = true
   adjacent : fallbackAdjacent o.exch = true
   target : ∀ r s, targetOk ⟨c, o.exch, o.res, r, s⟩ = true
   mirror : o.exch.foldl foldExch rt = o.rt
-  result : ∀ r s, resultOk ⟨c, o.exch, o.res, r, s⟩ = true
+  result : callWF c → ∀ r s, resultOk ⟨c, o.exch, o.res, r, s⟩ = true
 
 variable (cfg : Cfg)
 
@@ -164,6 +174,23 @@ theorem nodup_subscribeFinish (rt : Routing) (svc : Nat) (t : Int) (r : Reaction
   unfold subscribeFinish
   repeat' split
   all_goals first | exact hn | exact nodup_keys_set _ _ _ hn
+
+/-- the initial SUBSCRIBE exchange: the publisher-side fold is what the code does to the routing table —
+    for every timeout, every reaction -/
+theorem sub_exch_fold (rt : Routing) (svc : Nat) (t : Int) (r : Reaction) :
+    foldExch rt ⟨subscribeRequest cfg svc t, r⟩ = (subscribeFinish rt svc t r).1 := by
+  cases r with
+  | connErr => simp [foldExch, sub_method, sub_sid, subscribeFinish]
+  | connTimeout => simp [foldExch, sub_method, sub_sid, subscribeFinish]
+  | resp status sid th =>
+    by_cases h200 : status = 200
+    · subst h200
+      cases sid with
+      | none => simp [foldExch, sub_method, sub_sid, subscribeFinish]
+      | some s =>
+        rcases parse_total th with hk | ⟨n, hk⟩ <;>
+          simp [foldExch, sub_method, sub_sid, sub_svc, subscribeFinish, guards_pinned.1, hk]
+    · cases sid <;> simp [foldExch, sub_method, sub_sid, subscribeFinish, h200]
 
 /-- the initial SUBSCRIBE exchange: fold and result -/
 theorem sub_exch_spec (rt : Routing) (svc : Nat) (t : Int) (r : Reaction) (ht : 0 ≤ t) :
@@ -193,16 +220,16 @@ theorem sub_exch_spec (rt : Routing) (svc : Nat) (t : Int) (r : Reaction) (ht : 
     · cases sid <;> simp [foldExch, lastGrant, sub_method, sub_sid, subscribeFinish, excOf, h200]
 
 theorem doSubscribe_ok (rt : Routing) (svc : Nat) (t : Int) (rs : List Reaction)
-    (hn : (keys rt).Nodup) (ht : 0 ≤ t) :
+    (hn : (keys rt).Nodup) :
     CallOk rt (.subscribe svc t) (doSubscribe cfg rt svc t rs) := by
   unfold doSubscribe
   generalize (nextReact rs).1 = r
   refine ⟨nodup_subscribeFinish _ _ _ _ hn, ?_, ?_, ?_, ?_, ?_⟩
-  · simp [sub_valid cfg svc t ht]
+  · intro (ht : 0 ≤ t); simp [sub_valid cfg svc t ht]
   · simp [fallbackAdjacent, sub_isRenewal]
   · intro _ _; simp [targetOk, sub_svc, sub_isInitial]
-  · simpa using (sub_exch_spec cfg rt svc t r ht).1
-  · intro _ _
+  · simpa using sub_exch_fold cfg rt svc t r
+  · intro (ht : 0 ≤ t) _ _
     have h2 := (sub_exch_spec cfg rt svc t r ht).2
     simp only [resultOk]
     split at h2
@@ -242,14 +269,14 @@ theorem ren_exch_spec (rt : Routing) (svc : Nat) (sid : Str) (t : Int) (sid' th 
   · simpa [foldExch, ren_method, ren_sid, ren_svc, renewFinish, guards_pinned.2, hk] using hres
 
 theorem doResubscribe_ok (rt : Routing) (tg : Target) (t : Int) (rs : List Reaction)
-    (hn : (keys rt).Nodup) (ht : 0 ≤ t) :
+    (hn : (keys rt).Nodup) :
     CallOk rt (.resubscribe tg t) (doResubscribe cfg rt tg t rs) := by
   unfold doResubscribe
   cases hr : resolve rt tg with
   | none =>
     simp only
-    exact ⟨hn, rfl, rfl, fun _ _ => by simp [targetOk], rfl,
-      fun _ _ => by simp [resultOk, lastGrant, excOf]⟩
+    exact ⟨hn, fun _ => rfl, rfl, fun _ _ => by simp [targetOk], rfl,
+      fun _ _ _ => by simp [resultOk, lastGrant, excOf]⟩
   | some p =>
     obtain ⟨sid, svc⟩ := p
     have htg := resolve_target hr
@@ -265,41 +292,41 @@ theorem doResubscribe_ok (rt : Routing) (tg : Target) (t : Int) (rs : List React
     cases r with
     | connErr =>
       simp only
-      refine ⟨nodup_keys_erase _ _ hn, by simp [ren_valid cfg svc t sid ht], ?_, fun _ _ => htarget _ _ _ _ _, ?_, ?_⟩
+      refine ⟨nodup_keys_erase _ _ hn, fun (ht : 0 ≤ t) => by simp [ren_valid cfg svc t sid ht], ?_, fun _ _ => htarget _ _ _ _ _, ?_, ?_⟩
       · simp [fallbackAdjacent, ren_isRenewal]
       · simp [foldExch, ren_method, ren_sid]
-      · intro _ _; simp [resultOk, lastGrant, ren_method, excOf]
+      · intro _ _ _; simp [resultOk, lastGrant, ren_method, excOf]
     | connTimeout =>
       simp only
-      refine ⟨nodup_keys_erase _ _ hn, by simp [ren_valid cfg svc t sid ht], ?_, fun _ _ => htarget _ _ _ _ _, ?_, ?_⟩
+      refine ⟨nodup_keys_erase _ _ hn, fun (ht : 0 ≤ t) => by simp [ren_valid cfg svc t sid ht], ?_, fun _ _ => htarget _ _ _ _ _, ?_, ?_⟩
       · simp [fallbackAdjacent, ren_isRenewal]
       · simp [foldExch, ren_method, ren_sid]
-      · intro _ _; simp [resultOk, lastGrant, ren_method, excOf]
+      · intro _ _ _; simp [resultOk, lastGrant, ren_method, excOf]
     | resp status sid' th =>
       simp only
       by_cases h200 : status = 200
       · subst h200
         simp only [ne_eq, not_true_eq_false, if_false]
-        refine ⟨nodup_renewFinish _ _ _ _ _ _ hn, by simp [ren_valid cfg svc t sid ht], ?_,
+        refine ⟨nodup_renewFinish _ _ _ _ _ _ hn, fun (ht : 0 ≤ t) => by simp [ren_valid cfg svc t sid ht], ?_,
           fun _ _ => htarget _ _ _ _ _, ?_, ?_⟩
         · simp [fallbackAdjacent, ren_isRenewal]
         · simpa using (ren_exch_spec cfg rt svc sid t sid' th).1
-        · intro _ _
+        · intro (ht : 0 ≤ t) _ _
           have hres := (ren_exch_spec cfg rt svc sid t sid' th).2
           simp [resultOk, lastGrant, ren_method, ren_sid, ren_wire cfg svc t sid ht, grantOf, hres]
       · simp only [ne_eq, h200, not_false_eq_true, if_true]
-        have hsub := doSubscribe_ok cfg (erase rt sid) svc t rs' (nodup_keys_erase _ _ hn) ht
+        have hsub := doSubscribe_ok cfg (erase rt sid) svc t rs' (nodup_keys_erase _ _ hn)
         unfold doSubscribe at hsub ⊢
         generalize (nextReact rs').1 = r2 at hsub ⊢
         refine ⟨hsub.nodup, ?_, ?_, fun _ _ => htarget _ _ _ _ _, ?_, ?_⟩
-        · simp [ren_valid cfg svc t sid ht, sub_valid cfg svc t ht]
+        · intro (ht : 0 ≤ t); simp [ren_valid cfg svc t sid ht, sub_valid cfg svc t ht]
         · simp [fallbackAdjacent, ren_isRenewal, sub_isRenewal, sub_isInitial, sub_svc, ren_svc, h200]
         · have := hsub.mirror
           simp only [List.foldl_cons, List.foldl_nil] at this ⊢
           rw [← this]
           simp [foldExch, ren_method, ren_sid, h200]
-        · intro r s
-          have := hsub.result r s
+        · intro (ht : 0 ≤ t) r s
+          have := hsub.result ht r s
           simpa [resultOk, lastGrant] using this
 
 theorem doUnsubscribe_ok (rt : Routing) (tg : Target) (rs : List Reaction) (hn : (keys rt).Nodup) :
@@ -308,20 +335,20 @@ theorem doUnsubscribe_ok (rt : Routing) (tg : Target) (rs : List Reaction) (hn :
   cases hr : resolve rt tg with
   | none =>
     simp only
-    exact ⟨hn, rfl, rfl, fun _ _ => by simp [targetOk], rfl,
-      fun _ _ => by simp [resultOk, excOf]⟩
+    exact ⟨hn, fun _ => rfl, rfl, fun _ _ => by simp [targetOk], rfl,
+      fun _ _ _ => by simp [resultOk, excOf]⟩
   | some p =>
     obtain ⟨sid, svc⟩ := p
     have htg := resolve_target hr
     simp only
     generalize (nextReact rs).1 = r
-    refine ⟨nodup_keys_erase _ _ hn, by simp [uns_valid], by simp [fallbackAdjacent, uns_isRenewal], ?_, ?_, ?_⟩
+    refine ⟨nodup_keys_erase _ _ hn, fun _ => by simp [uns_valid], by simp [fallbackAdjacent, uns_isRenewal], ?_, ?_, ?_⟩
     · intro _ _
       cases tg with
       | svc i => simp only at htg; subst htg; simp [targetOk, uns_svc, uns_method]
       | sid x => simp only at htg; subst htg; simp [targetOk, uns_sid, uns_method]
     · simp [foldExch, uns_method, uns_sid, Ne.symm mSub_ne_mUnsub]
-    · intro _ _
+    · intro _ _ _
       cases r with
       | connErr => simp [resultOk, excOf]
       | connTimeout => simp [resultOk, excOf]
@@ -411,14 +438,14 @@ theorem resubAll_ok (sids : List Str) (rt : Routing) (rs : List Reaction) (first
   | nil => exact ⟨hn, rfl, rfl, rfl, rfl⟩
   | cons s more ih =>
     simp only [resubAll]
-    have h1 := doResubscribe_ok cfg rt (.sid s) _ rs hn defaultTimeout_nonneg
+    have h1 := doResubscribe_ok cfg rt (.sid s) Gen.C09Gena.defaultTimeoutResubscribe rs hn
     generalize ho : doResubscribe cfg rt (.sid s) Gen.C09Gena.defaultTimeoutResubscribe rs = o at h1
     have h2 := ih o.rt o.rest (match first with | some e => some e | none => excOf o.res) h1.nodup
     generalize resubAll cfg more o.rt o.rest _ = o2 at h2
     have hf := fallbackAdjacent_resub_append cfg rt (.sid s) Gen.C09Gena.defaultTimeoutResubscribe rs o2.exch h2.adjacent h2.head
     rw [ho] at hf
     refine ⟨h2.nodup, ?_, hf.1, hf.2, ?_⟩
-    · simp only [List.all_append, Bool.and_eq_true]; exact ⟨h1.valid, h2.valid⟩
+    · simp only [List.all_append, Bool.and_eq_true]; exact ⟨h1.valid (by first | exact defaultTimeout_nonneg | trivial), h2.valid⟩
     · simp only [List.foldl_append]
       rw [h1.mirror, h2.mirror]
 
@@ -460,7 +487,7 @@ theorem unsubAll_ok (sids : List Str) (rt : Routing) (rs : List Reaction) (hn : 
       · exact hnr e h
       · exact h2nr e h
     refine ⟨⟨h2.nodup, ?_, fallbackAdjacent_of_no_renewal _ (fun e he => (hall e he).1), ?_, ?_⟩, hall⟩
-    · simp only [List.all_append, Bool.and_eq_true]; exact ⟨h1.valid, h2.valid⟩
+    · simp only [List.all_append, Bool.and_eq_true]; exact ⟨h1.valid (by first | exact defaultTimeout_nonneg | trivial), h2.valid⟩
     · cases hx : o.exch ++ o2.exch with
       | nil => rfl
       | cons e r =>
@@ -469,29 +496,20 @@ theorem unsubAll_ok (sids : List Str) (rt : Routing) (rs : List Reaction) (hn : 
     · simp only [List.foldl_append]
       rw [h1.mirror, h2.mirror]
 
-/-- well-formed call: caller-supplied timeouts are not negative -/
-def callWF : Call → Prop
-  | .subscribe _ t => 0 ≤ t
-  | .resubscribe _ t => 0 ≤ t
-  | _ => True
-
-instance (c : Call) : Decidable (callWF c) := by
-  cases c <;> simp only [callWF] <;> infer_instance
-
-theorem runCall_ok (rt : Routing) (c : Call) (rs : List Reaction) (hn : (keys rt).Nodup) (hw : callWF c) :
+theorem runCall_ok (rt : Routing) (c : Call) (rs : List Reaction) (hn : (keys rt).Nodup) :
     CallOk rt c (runCall cfg rt c rs) := by
   cases c with
-  | subscribe svc t => exact doSubscribe_ok cfg rt svc t rs hn hw
-  | resubscribe tg t => exact doResubscribe_ok cfg rt tg t rs hn hw
+  | subscribe svc t => exact doSubscribe_ok cfg rt svc t rs hn
+  | resubscribe tg t => exact doResubscribe_ok cfg rt tg t rs hn
   | unsubscribe tg => exact doUnsubscribe_ok cfg rt tg rs hn
   | resubscribeAll =>
     have h := resubAll_ok cfg (keys rt) rt rs none hn
-    exact ⟨h.nodup, h.valid, h.adjacent, fun _ _ => by simp [targetOk]; split <;> rfl, h.mirror,
-      fun _ _ => rfl⟩
+    exact ⟨h.nodup, fun _ => h.valid, h.adjacent, fun _ _ => by simp [targetOk]; split <;> rfl, h.mirror,
+      fun _ _ _ => rfl⟩
   | unsubscribeAll =>
     have h := (unsubAll_ok cfg (keys rt) rt rs hn).1
-    exact ⟨h.nodup, h.valid, h.adjacent, fun _ _ => by simp [targetOk]; split <;> rfl, h.mirror,
-      fun _ _ => rfl⟩
+    exact ⟨h.nodup, fun _ => h.valid, h.adjacent, fun _ _ => by simp [targetOk]; split <;> rfl, h.mirror,
+      fun _ _ _ => rfl⟩
 
 end Upnp.C09
 
